@@ -186,7 +186,7 @@ func (fc *fnCtx) classAssume(v *val, t types.Type, guard string) {
 			return
 		}
 		g.declFun("CLS", "(Int) Int")
-		parts := []string{fmt.Sprintf("(<= %s 0)", v.t[0])}
+		parts := []string{fmt.Sprintf("(= %s 0)", v.t[0])}
 		for _, id := range ids {
 			parts = append(parts, fmt.Sprintf("(= (CLS %s) %d)", v.t[0], id))
 		}
